@@ -455,6 +455,18 @@ def parse_log(log_path):
                 continue
             t = line[0]
             f_ = line.split(" ")
+            if t in "SOE" and cur is not None:
+                # the bulk of a log; a line cut in two by the harness's log cap is skipped
+                try:
+                    if t == "S":
+                        cur["events"].append(("S", f_[1], int(f_[2])))
+                    elif t == "O":
+                        cur["events"].append(("O", int(f_[1])))
+                    else:
+                        cur["events"].append(("E", int(f_[1]), unhex(f_[2])))
+                except (ValueError, IndexError):
+                    pass
+                continue
             if t == "B":
                 cur = {"events": [], "result": None, "steps": None, "calls": [], "pos": None, "ctx": None,
                        "notes": 0}
